@@ -149,6 +149,14 @@ func Core() []*Schema {
 		Un("WideU", Br(1, St("WideB", F("w", N("Wide")), F("z", P("byte")))), Br(2, Msg("WideC", MF(1, "m", N("Mixed")), MF(2, "z", P("byte"))))),
 		St("HoldsWideU", F("u", N("WideU")), F("after", P("int64")))))
 
+	// 8d. containers of records that occupy zero bytes: a count larger than the remaining
+	// input is a VALID encoding there
+	out = append(out, mk("emptyelems",
+		St("Unit"), St("Units2", F("a", N("Unit")), F("b", N("Unit"))),
+		St("UnitArr", F("us", A(N("Unit")))), St("UnitArrTail", F("us", A(N("Unit"))), F("z", P("byte"))),
+		St("Units2Arr", F("us", A(N("Units2"))), F("n", P("uint16"))),
+		Msg("UnitMsg", MF(1, "us", A(N("Unit"))), MF(2, "um", M("string", N("Unit"))), MF(3, "after", P("uint32")))))
+
 	// 8c. deprecated fields inside structs (they stay on the wire, unlike in messages)
 	out = append(out, mk("depstruct",
 		St("DepS", F("a", P("int32")), Dep(F("old", P("int64"))), F("z", P("byte"))),
